@@ -320,6 +320,35 @@ func loadCorpus() []corpus.Entry {
 	return corp
 }
 
+var (
+	compilesMu  sync.Mutex
+	compilesMem = map[string]bool{}
+)
+
+// compiles tells whether a corpus entry compiles (a pure function of the entry, memoised).
+func compiles(e corpus.Entry) bool {
+	compilesMu.Lock()
+	defer compilesMu.Unlock()
+	if v, ok := compilesMem[e.Name]; ok {
+		return v
+	}
+	ok := func() (ok bool) {
+		defer func() {
+			if recover() != nil {
+				ok = false
+			}
+		}()
+		var fsys fs.FS
+		if e.Files != nil {
+			fsys = memFS{files: toBytes(e.Files)}
+		}
+		_, _, err := d2compiler.Compile("index.d2", strings.NewReader(e.Text), &d2compiler.CompileOptions{FS: fsys})
+		return err == nil
+	}()
+	compilesMem[e.Name] = ok
+	return ok
+}
+
 func drawSpec(tp *tape.Tape, idx int, render, thorough bool, first bool) Spec {
 	c := loadCorpus()
 	var sp Spec
@@ -346,6 +375,10 @@ func drawSpec(tp *tape.Tape, idx int, render, thorough bool, first bool) Spec {
 				e = c[idx%len(c)]
 			} else {
 				e = c[tp.Draw(len(c), "spec.pick")]
+			}
+			if render && try < 10 && !compiles(e) {
+				// a program that ends in a compile error renders nothing: C08 has those
+				continue
 			}
 			if len(e.Text) <= maxLen {
 				break
